@@ -206,6 +206,8 @@ def build_harness(rundir, race=False, tags=()):
 
 
 # (directory under go/, generated file, "stdout" = prints the file | "file" = takes the output path as 2nd argument)
+CORE_GENERATED = ["Consts.lean", "Opts.lean", "Bounds.lean"]
+LAST_FACTX_FAILED = set()   # generated files whose extraction failed in the last run_factx of this process
 EXTRA_EXTRACTORS = [("factx_frames", "Frames.lean", "stdout"), ("factx_access", "Access.lean", "file")]
 
 
@@ -229,6 +231,9 @@ def run_factx(rundir):
     p = subprocess.run([binp, REPO, tmp], stdout=subprocess.PIPE, stderr=subprocess.STDOUT, text=True, timeout=300)
     ok = p.returncode == 0
     logs = [p.stdout]
+    failed = set()
+    if not ok:
+        failed.update(CORE_GENERATED)
     # stand-alone extractors (one generated file each, printed to stdout)
     for d, outname, style in EXTRA_EXTRACTORS:
         src = os.path.join(VERIF, "go", d)
@@ -237,20 +242,20 @@ def run_factx(rundir):
         xb = os.path.join(rundir, d)
         b = subprocess.run(["go", "build", "-o", xb, "."], cwd=src, env=GOENV, stdout=subprocess.PIPE, stderr=subprocess.STDOUT, text=True, timeout=600)
         if b.returncode != 0:
-            ok = False
+            failed.add(outname)
             logs.append("%s build failed:\n%s" % (d, b.stdout))
             continue
         if style == "file":
             r = subprocess.run([xb, REPO, os.path.join(tmp, outname)], stdout=subprocess.PIPE, stderr=subprocess.STDOUT, text=True, timeout=300)
             if r.returncode != 0:
-                ok = False
+                failed.add(outname)
                 logs.append("%s: %s" % (d, r.stdout[-1500:]))
                 if os.path.exists(os.path.join(tmp, outname)):
                     os.remove(os.path.join(tmp, outname))
             continue
         r = subprocess.run([xb, REPO], stdout=subprocess.PIPE, stderr=subprocess.PIPE, text=True, timeout=300)
         if r.returncode != 0:
-            ok = False
+            failed.add(outname)
             logs.append("%s: %s" % (d, r.stderr[-1500:]))
         elif r.stdout.strip():
             open(os.path.join(tmp, outname), "w").write(r.stdout)
@@ -265,7 +270,9 @@ def run_factx(rundir):
             path = os.path.join(gen, f)
             if not os.path.exists(path) or open(path).read() != s:
                 open(path, "w").write(s)
-    return ok, "\n".join(logs)
+    LAST_FACTX_FAILED.clear()
+    LAST_FACTX_FAILED.update(failed)
+    return ok and not failed, "\n".join(logs)
 
 
 def gen_cases(vh, name, seed, n, tier):
